@@ -139,6 +139,9 @@ def _record(run, kind, e, a, res, exc):
         # the batch this token belongs to, with the trigger flags at the moment of use (C15 FIRST_AVAILABLE)
         if t is not None:
             batch = [x for x in run.tokens if x["pid"] == t["pid"] and x["step"] == t["step"] and x["kind"] == t["kind"]]
+            # in the order of the node's edge list (= ascending edge index here), not in the order the requests were
+            # issued: "lowest-index edge able to serve" is about edges, and a node may issue its requests in any order
+            batch.sort(key=lambda x: x["edge"])
             base["batch"] = [[x["edge"], 1 if x["ev"].triggered else 0, x["gid"]] for x in batch]
         else:
             base["batch"] = []
